@@ -387,7 +387,11 @@ func takePenalty(currentDB *state.StateDB, val *state.Validator, penaltyAmount *
 		obligation.Div(obligation, big.NewInt(int64(params.CommissionRateBase)))
 		currTotal.Sub(currTotal, obligation)
 	}
-	per, rem := new(big.Int).QuoRem(currTotal, val.Stake, new(big.Int))
+	// a validator holding less than one stake unit has Stake 0: everything is its own share
+	per, rem := new(big.Int), new(big.Int).Set(currTotal)
+	if val.Stake.Sign() > 0 {
+		per, rem = new(big.Int).QuoRem(currTotal, val.Stake, new(big.Int))
+	}
 	selfPenalty := new(big.Int).Mul(per, val.SelfStake)
 	selfPenalty.Add(selfPenalty, rem)
 	selfPenalty.Add(selfPenalty, obligation)
